@@ -297,6 +297,15 @@ func (fa *flushAnalyser) callEffect2(info *types.Info, call *ast.CallExpr, vars 
 	if f.Name() == "WriteTo" {
 		if d, ok := fa.declOf[f]; ok {
 			r := fa.summary(f, d.pk, d.fd)
+			// handed a writer created in the argument list (`ct.WriteTo(bufio.NewWriter(w))`): the callee starts on an
+			// empty buffer, whatever this function has pending is not in it
+			if len(call.Args) == 1 {
+				if ac, ok := unparen(call.Args[0]).(*ast.CallExpr); ok {
+					if af := calleeFunc(info, ac); af != nil && af.Pkg() != nil && af.Pkg().Path() == "bufio" && af.Name() == "NewWriter" {
+						return r[fsFlushed]
+					}
+				}
+			}
 			return r[fsDirty]
 		}
 		// dynamic (interface) callee: every module WriteTo is itself obliged to end flushed
